@@ -3,8 +3,10 @@ BOUNDS = {
     'quick': 'one operation from every content state: capacity CAP in {0,1,3}, pre-size NA in 0..CAP (enumerated), second vector / source block size NB in 0..CAP (enumerated); '
              'element types int, POD{int,int}, NT (non-trivial copy/move/dtor -> non-trivial storage) at CAP 3, int + NT at CAP 0/1; all element values, slack bytes, '
              'object bytes before construction, positions, counts and new sizes symbolic over their full range (within the documented precondition)',
-    'thorough': 'CAP in {0,1,2,3,4,5} for int and NT, {0,1,3,4} for POD; size-type boundary CAP in {254,255,256} (int) with pre-sizes {0,1,CAP-1,CAP}: observers, push/emplace/pop/clear/try_push_back '
-                'with symbolic values, and insert/erase/resize with enumerated positions {0, last} (a symbolic position over ~255 elements does not finish)',
+    'thorough': 'CAP in {0,1,2,3,4,5} for int, {0,1,2,3,4} for NT, {0,1,2,4} for POD; size-type boundary CAP in {254,255,256} (int) with pre-sizes CAP-1 (growing) / CAP (shrinking, try_push_back on full): the loop-free operations '
+                'push_back/emplace_back/pop_back/clear/operator[] write and inplace_vector try_push_back/unchecked_emplace_back/pop_back/clear with symbolic values, full state compared afterwards '
+                '(operations that loop over the elements - insert, erase, resize, iteration - do not finish at these capacities: the element count is not a symbolic-execution constant, '
+                'so every library loop is unrolled ~258 times)',
 }
 ASSUMPTIONS = [
     'C01: every operation is called inside its documented precondition (position in [begin,end], size()+count <= capacity, non-empty for pop/front/back, index < size()); contract checks are compiled out (default build)',
@@ -27,8 +29,12 @@ RANGE_FIT = ['sv_insert_range', 'sv_move_insert']                      # NA + NB
 RANGE_ANY = ['sv_assign_range']                                        # NB <= CAP
 PAIR = ['sv_swap_member', 'sv_swap_free', 'sv_copy_assign', 'sv_move_assign', 'st_swap_member', 'st_swap_free']
 # entries that touch only the first/last elements: the ones run at the size-type boundary capacities
-BOUNDARY = ['sv_observe', 'sv_push_back_l', 'sv_emplace_back', 'sv_pop_back', 'sv_clear',
-            'iv_observe', 'iv_try_push_back_l', 'iv_unchecked_emplace_back', 'iv_pop_back', 'iv_clear']
+BOUNDARY = [('sv_push_back_l', -1), ('sv_emplace_back', -1), ('sv_pop_back', 0), ('sv_clear', 0), ('sv_set_at', 0),   # (entry, pre-size relative to CAP)
+            ('iv_try_push_back_l', -1), ('iv_try_push_back_l', 0), ('iv_unchecked_emplace_back', -1), ('iv_pop_back', 0), ('iv_clear', 0)]
+
+
+# measured: erase_if (data-dependent moves + signed comparisons) CAP 3: minisat 102 s, cadical 3 s
+SOLVER = {'sv_free_erase_if': 'cadical', 'sv_free_erase': 'cadical'}
 
 
 def applicable(e, cap, na, nb):
@@ -53,7 +59,7 @@ def uw(blk, slack):
 def grid(tier):
     if tier == 'quick':
         return [(0, 0), (0, 1), (0, 3), (1, 3), (2, 0), (2, 1), (2, 3)]
-    return [(0, c) for c in (0, 1, 2, 3, 4, 5)] + [(2, c) for c in (0, 1, 2, 3, 4, 5)] + [(1, c) for c in (0, 1, 3, 4)]
+    return [(0, c) for c in (0, 1, 2, 3, 4, 5)] + [(2, c) for c in (0, 1, 2, 3, 4)] + [(1, c) for c in (0, 1, 2, 4)]
 
 
 def queries(tier, prop='C01'):
@@ -67,16 +73,12 @@ def queries(tier, prop='C01'):
                 for e in ALL:
                     if not applicable(e, cap, na, nb): continue
                     out.append(dict(entry='q_' + e, cfg={'ELT': elt, 'CAP': cap, 'NA': na, 'NB': nb}, unwind=cap + 3,
-                                    unwindset=uw(objsz + 2, cap * esz + 2), budget=120, ub=ub, nofunc=ub))
+                                    unwindset=uw(objsz + 2, cap * esz + 2), budget=600, ub=ub, nofunc=ub,
+                                    solver=SOLVER.get(e, 'minisat')))
     if tier == 'thorough' and not ub:
         # size-type boundary: smallest_size_t<N> is unsigned char up to N = 254 and unsigned short from N = 255
         for cap in (254, 255, 256):
             u = uw(cap * 4 + 18, cap * 4 + 2)
-            for na in sorted({0, 1, cap - 1, cap}):
-                for e in BOUNDARY:
-                    if not applicable(e, cap, na, 0): continue
-                    out.append(dict(entry='q_' + e, cfg={'ELT': 0, 'CAP': cap, 'NA': na, 'NB': 0}, unwind=cap + 3, unwindset=u, budget=900))
-            for (e, na, bpos) in [('sv_insert_l_at', cap - 1, 0), ('sv_insert_l_at', cap - 1, cap - 1), ('sv_erase1_at', cap, 0), ('sv_erase1_at', cap, cap - 1),
-                                  ('sv_resize2_to', 1, cap), ('sv_resize2_to', cap, 1)]:
-                out.append(dict(entry='q_' + e, cfg={'ELT': 0, 'CAP': cap, 'NA': na, 'NB': 0, 'BPOS': bpos}, unwind=cap + 3, unwindset=u, budget=900))
+            for (e, na) in BOUNDARY:
+                out.append(dict(entry='q_' + e, cfg={'ELT': 0, 'CAP': cap, 'NA': cap + na, 'NB': 0}, unwind=cap + 3, unwindset=u, budget=2400))
     return out
